@@ -63,8 +63,11 @@ pub fn schedules(cfg: &DCfg, n: usize, positions: &[usize], flush_positions: &[u
         v.push(DSched { steps: (0..n).map(|_| feed(1, AMPLE, Z_NO_FLUSH)).collect(), tail_room: AMPLE });
         v.push(DSched { steps: (0..n).map(|_| feed(1, 1, Z_NO_FLUSH)).collect(), tail_room: 1 });
     }
-    // parameter change at a split (two targets), tune at a split
-    let targets: [(i32, i32); 2] = if cfg.level == 0 { [(6, 0), (1, 2)] } else if cfg.level < 4 { [(9, 0), (0, 0)] } else { [(1, 0), (0, 3)] };
+    // parameter change at a split: two level changes, plus strategy-only changes at the same level
+    // (the algorithm is picked by strategy first: Huffman-only / RLE), tune at a split
+    let base: [(i32, i32); 2] = if cfg.level == 0 { [(6, 0), (1, 2)] } else if cfg.level < 4 { [(9, 0), (0, 0)] } else { [(1, 0), (0, 3)] };
+    let lv = if cfg.level < 0 { 6 } else { cfg.level };
+    let targets: [(i32, i32); 4] = [base[0], base[1], (lv, if cfg.strategy == 2 { 0 } else { 2 }), (lv, if cfg.strategy == 3 { 1 } else { 3 })];
     for &i in flush_positions.iter().take(if rich { usize::MAX } else { 5 }) {
         if i <= n {
             for (l, st) in targets {
@@ -85,6 +88,34 @@ pub fn schedules(cfg: &DCfg, n: usize, positions: &[usize], flush_positions: &[u
             let (l, st) = targets[0];
             v.push(DSched { steps: vec![feed(a, AMPLE, Z_SYNC_FLUSH), DStep::Params { level: l, strategy: st, room: AMPLE }, feed(b - a, AMPLE, Z_BLOCK)], tail_room: AMPLE });
             v.push(DSched { steps: vec![feed(a, 3, Z_NO_FLUSH), DStep::Params { level: l, strategy: st, room: 2 }], tail_room: 7 });
+        }
+    }
+    // two parameter changes (through stored and back / away and back) with data in between, and a parameter
+    // change followed by output-limited calls (stored blocks copied straight from the input with leftover bits)
+    let away: (i32, i32) = if cfg.level == 0 { (6, 0) } else { (0, 0) };
+    let back: (i32, i32) = (lv, cfg.strategy);
+    let mids: Vec<usize> = flush_positions.iter().copied().filter(|&x| x > 0 && x < n).collect();
+    let w = cfg.w_size();
+    for (ai, &a) in mids.iter().enumerate() {
+        // second change at the next lattice positions and at the distances that make a stored-phase call
+        // slide the window exactly once (used < w_size, window nearly full)
+        let mut bs: Vec<usize> = mids.iter().skip(ai + 1).step_by(if rich { 1 } else { 2 }).copied().collect();
+        bs.extend([a + w - 1, a + w - 70, a + 3 * w / 4, a + w / 2]);
+        bs.retain(|&b| b > a && b < n);
+        bs.sort();
+        bs.dedup();
+        for &b in &bs {
+            for f in [Z_NO_FLUSH, Z_SYNC_FLUSH] {
+                v.push(DSched { steps: vec![feed(a, AMPLE, Z_NO_FLUSH), DStep::Params { level: away.0, strategy: away.1, room: AMPLE }, feed(b - a, AMPLE, f), DStep::Params { level: back.0, strategy: back.1, room: AMPLE }], tail_room: AMPLE });
+            }
+        }
+        for r in [pend + 1, pend + 90, 2 * pend] {
+            v.push(DSched { steps: vec![feed(a, AMPLE, Z_NO_FLUSH), DStep::Params { level: away.0, strategy: away.1, room: AMPLE }], tail_room: r });
+            v.push(DSched { steps: vec![feed(a, AMPLE, Z_NO_FLUSH), DStep::Params { level: away.0, strategy: away.1, room: AMPLE }, feed(n, r, Z_NO_FLUSH)], tail_room: AMPLE });
+        }
+    }
+    {
+        {
         }
     }
     v
